@@ -872,6 +872,11 @@ class Machine:
         else:
             self.ctx.probe("rejected_call.accepted")
         finally:
+            if w in ("srf_pos_dim", "condsrf_pos_dim"):
+                # a refused position tuple may be half taken over (not an aliasing matter):
+                # the user continues with a valid call, so that "reuse" has positions again
+                obj = self.srf if w == "srf_pos_dim" else self.cond
+                obj(self._vals(rs, (d, 3), -3, 3), store=False)
             if w == "set_condition_len":
                 # leave the shared kriging objects usable for the rest of the history
                 for name in ("krige", "cond.krige"):
